@@ -146,6 +146,7 @@ func (i *stringInternalNode) deleteKey(minSize int, key string) bool {
 		defer leftSibling.unlock()
 		if leftCount = leftSibling.count(); leftCount > minSize {
 			child.adoptFromLeft(leftSibling)
+			i.runts[index] = child.smallest()
 			return false
 		}
 	}
